@@ -505,6 +505,9 @@ class Interp:
                     kv = self.expr(v, env)
                     if isinstance(kv, Const) and isinstance(kv.value, dict):
                         out.update(kv.value); continue
+                    if hasattr(d, "abstract_dict"):
+                        vals = [kv] + [self.expr(x, env) for kk, x in zip(e.keys, e.values) if kk is not None] + list(out.values())
+                        return d.abstract_dict(vals, e)
                     return Opaque("dict")
                 kk = self.expr(k, env)
                 if not isinstance(kk, Const):
